@@ -247,10 +247,10 @@ pub fn leaf_value(l: &LeafX) -> PResult<AvpValue> {
         LeafX::Oct(b) => OctetString::new(b.clone()).into(),
         LeafX::Time(z) => Time::new(
             chrono::Utc
-                // a tiny sub-second part (1 ns) for every odd second: the wire carries whole seconds; whether a library floors
-                // or rounds to nearest, one nanosecond past the second is that second - only truncation toward zero (wrong
-                // for instants before 1970) or rounding up would make it another one
-                .timestamp_opt(*z, if z.rem_euclid(2) == 1 { 1 } else { 0 })
+                // a sub-second part on three seconds out of four (1 ns, half a second, 999 999 999 ns): the wire carries "the first
+                // four bytes of the NTP timestamp" (RFC 6733 4.3.1), i.e. the whole seconds of the instant - the floor, whatever
+                // the fraction and on both sides of 1970; truncation toward zero or rounding to nearest give another second
+                .timestamp_opt(*z, match z.rem_euclid(4) { 1 => 1, 2 => 500_000_000, 3 => 999_999_999, _ => 0 })
                 .single()
                 .ok_or_else(|| "time not representable".to_string())?,
         )
